@@ -38,7 +38,7 @@ ASSUMPTIONS = [
     "Work wires: a DynamicWire is mapped to a fresh auxiliary wire starting in |0>; 'any'-state allocations are exercised with |0> only.",
     "Weighted gate sets (dict) are generated only with the graph enabled (documented as graph-only).",
 ]
-BUDGET = {"quick": {"examples": 120}, "thorough": {"examples": 8000, "shards": 16}}
+BUDGET = {"quick": {"examples": 120}, "thorough": {"examples": 1500, "shards": 5}}
 SHRINK_LISTS = ("ops",)
 TOL = 1e-7
 
